@@ -373,12 +373,16 @@ type compositeEntitySetSymbol struct {
 	chain       []iterableEntitySymbol
 	cursor      *stackedCursor
 	cursorLastF func(tx *bbolt.Tx, key []byte) (FieldType, []byte)
+	tail        EntitySymbol // the non-iterable last symbol cursorLastF evaluates, if any
 }
 
 func (symbol *compositeEntitySetSymbol) getChain() []EntitySymbol {
 	var result []EntitySymbol
 	for _, chainSymbol := range symbol.chain {
 		result = append(result, chainSymbol)
+	}
+	if symbol.tail != nil {
+		result = append(result, symbol.tail)
 	}
 	return result
 }
